@@ -1,6 +1,8 @@
 """C19 generators: a family of predicates with a scalar (pure Python) reading,
 instrumented check functions built from them, and small data sets with nulls,
-groups and non-default indexes.  Everything is a JSON-able description first
+groups (str / int / bool / categorical keys, categories without rows) and
+non-default indexes, materialised as numpy columns or as nullable extension
+dtypes holding pd.NA.  Everything is a JSON-able description first
 (so a witness replays without the generator) and real objects second.
 """
 from __future__ import annotations
